@@ -289,3 +289,5 @@ def run(chk):
     from . import c02
     c02.rule_fields(chk)    # whatever the parameters are called, they cannot displace the action's own identity/placement keys
     c03.rule_truthful(chk)  # the logged action's end is 'succeeded' (with the result) exactly when the call returned
+    from . import c07
+    c07.rule_contain(chk, only=("eliot.log_call", "eliot.Action.finish", "eliot.Action.__exit__"))  # a logging failure while finishing would replace the function's own exception
